@@ -15,6 +15,8 @@ def check(tier, seed, only=None):
     def _gcm():
         try:
             gbox["d"] = native.gcm_guard(os.path.join(runner.scratch(), "native_gcm"), lmax, smax, seed)
+            gbox["x"] = native.gcm_guard(os.path.join(runner.scratch(), "native_gcm"), 300 if tier == "quick" else 2100,
+                                         1024 if tier == "quick" else 4096, seed, prog="aes_guard")
         except Exception as e:  # reported below as undecided
             gbox["e"] = e
     gthread = threading.Thread(target=_gcm)
@@ -52,11 +54,24 @@ def check(tier, seed, only=None):
                 f.write("native/gcm_guard.c on the real assembly from /repo\n$ " + d["cmd"] + "\n" + d["text"])
             first = [l for l in d["text"].split("\n") if l.startswith(("FAULT", "MODIFIED", "DIFFERENT"))] or [d["text"][-200:]]
             rep.add_violation("native/gcm_guard:aes_gcm:ranges", "bounded guard-page check on the real assembly: " + first[0][:260], path, True)
+        dx = gbox["x"]
+        rep.bounded.append({"what": "AES-XTS 128/256 enc+dec of the sse, avx and vaes families (every sector length from 16: ciphertext stealing) and AES-CBC "
+                                    "128/192/256 (enc x4/x8, dec sse/avx/vaes_avx512): data ranges end at / begin after an unmapped page, raw keys and tweak "
+                                    "end at one; no fault, inputs unmodified, placement-independent result, decrypt(encrypt(x)) == x; expanded-key XTS "
+                                    "entry points and key expansion are not covered",
+                            "label": "bounded", "bound": dx["cmd"], "evaluations": dx["calls"], "distinct_nontrivial": dx["cases"], "agree": dx["ok"],
+                            "families": dx["families"], "cmd": dx["cmd"]})
+        if not dx["ok"]:
+            path = os.path.join(rep.replay_dir(), "aes_guard.txt")
+            with open(path, "w") as f:
+                f.write("native/aes_guard.c on the real assembly from /repo\n$ " + dx["cmd"] + "\n" + dx["text"])
+            first = [l for l in dx["text"].split("\n") if l.startswith(("FAULT", "MODIFIED", "DIFFERENT", "ROUNDTRIP"))] or [dx["text"][-200:]]
+            rep.add_violation("native/aes_guard:aes_xts_cbc:ranges", "bounded guard-page check on the real assembly: " + first[0][:260], path, True)
     except Exception as e:
         rep.add_undecided("native AES-GCM guard-page check could not be built/run: %s" % e)
     rep.assumptions.append("RESTRICTED TO C: the NASM kernels (about 80% of the library's loads and stores) are out of CBMC's reach; "
                            "for them C08 is not decided here; bounded native checks: AES-GCM families with guard pages (here), rolling-hash scans (C09), hash managers (C01/C06), "
-                           "multi-hash block functions (C05); AES-XTS, AES-CBC and key expansion have none")
+                           "multi-hash block functions (C05); AES-XTS and AES-CBC with guard pages (here); key expansion and the expanded-key XTS entry points have none")
     rep.notes.append("every object handed to a function under proof is allocated with exactly its documented size, so a one-byte over-read or "
                      "over-write is a failed pointer/bounds obligation; inputs are absent from every assigns clause (frame check)")
     rep.notes.append("mh update/tail/finalize (C05/C10) and rolling init (C09) carry the same pointer/bounds obligations; they are counted under those properties")
